@@ -57,11 +57,36 @@ Proof. exact updates_are_receipts. Qed.
 Print Assumptions C01_updates_are_receipts.
 
 (* 4. lossless: every received message that reaches Update at all has been passed to Update exactly
-   once, except the single one the loop may be holding right now *)
+   once, except the single one the loop may be holding right now and the single one that a failing
+   callback (recovered panic) or an error on p.errs made the loop lose: the loop fails at most once
+   and is exited afterwards.  (c): never more Updates than receipts. *)
+Theorem C01_lossless_bounds :
+  forall (M : Type) (upd : M -> msg -> M * option cmdid) (cres : cmdid -> msg)
+         (m0 : M) (init_cmd : option cmdid) (scripts : list (list msg)) (sched : list label),
+  let s := run M upd cres (init_state M m0 init_cmd scripts) sched in
+  let inflight := match c_loop s with LGot m => if updatable m then 1 else 0 | _ => 0 end in
+  let fails := length (filter (fun e => match e with EFail => true | _ => false end) (c_log s)) in
+  n_updates (c_log s) + inflight <= n_received_updatable (c_log s) /\
+  n_received_updatable (c_log s) <= n_updates (c_log s) + inflight + fails /\
+  fails <= 1 /\
+  (fails = 0 \/ c_loop s = LExited).
+Proof. exact lossless_bounds. Qed.
+Print Assumptions C01_lossless_bounds.
+
+Theorem C01_lossless_le :
+  forall (M : Type) (upd : M -> msg -> M * option cmdid) (cres : cmdid -> msg)
+         (m0 : M) (init_cmd : option cmdid) (scripts : list (list msg)) (sched : list label),
+  let s := run M upd cres (init_state M m0 init_cmd scripts) sched in
+  n_updates (c_log s) <= n_received_updatable (c_log s) /\
+  n_received_updatable (c_log s) <= n_updates (c_log s) + 1.
+Proof. exact lossless_le. Qed.
+Print Assumptions C01_lossless_le.
+
 Theorem C01_lossless_general :
   forall (M : Type) (upd : M -> msg -> M * option cmdid) (cres : cmdid -> msg)
          (m0 : M) (init_cmd : option cmdid) (scripts : list (list msg)) (sched : list label),
   let s := run M upd cres (init_state M m0 init_cmd scripts) sched in
+  ~ In EFail (c_log s) ->
   n_received_updatable (c_log s) =
   n_updates (c_log s) + (match c_loop s with LGot m => if updatable m then 1 else 0 | _ => 0 end).
 Proof. exact lossless_general. Qed.
@@ -71,24 +96,48 @@ Theorem C01_lossless :
   forall (M : Type) (upd : M -> msg -> M * option cmdid) (cres : cmdid -> msg)
          (m0 : M) (init_cmd : option cmdid) (scripts : list (list msg)) (sched : list label),
   let s := run M upd cres (init_state M m0 init_cmd scripts) sched in
+  ~ In EFail (c_log s) ->
   match c_loop s with LGot _ => False | _ => True end ->
   n_updates (c_log s) = n_received_updatable (c_log s).
 Proof. exact lossless. Qed.
 Print Assumptions C01_lossless.
 
-(* 5. per sender: what the loop took from sender i, in order, followed by what i still holds, is
-   exactly i's script: nothing lost, duplicated, invented or reordered *)
+(* 5. per sender: what sender i got rid of (taken by the loop, or - only once the context has been
+   cancelled - dropped by a Send that gave up), in order, followed by what i still holds, is exactly
+   i's script: nothing duplicated, invented or reordered, and nothing lost before the cancellation *)
 Theorem C01_per_sender :
   forall (M : Type) (upd : M -> msg -> M * option cmdid) (cres : cmdid -> msg)
          (m0 : M) (init_cmd : option cmdid) (scripts : list (list msg)) (sched : list label),
   let s := run M upd cres (init_state M m0 init_cmd scripts) sched in
-  per_sender_ok scripts (c_senders s) (c_log s) = true /\ length (c_senders s) = length scripts.
+  per_sender_ok scripts (c_senders s) (c_log s) = true /\ length (c_senders s) = length scripts /\
+  no_drop_before_cancel (c_log s) = true.
 Proof. exact per_sender. Qed.
 Print Assumptions C01_per_sender.
 
+(* until the context is cancelled nothing is dropped: what the loop took from sender i followed by
+   what i still holds is exactly i's script *)
+Theorem C01_per_sender_prefix :
+  forall (M : Type) (upd : M -> msg -> M * option cmdid) (cres : cmdid -> msg)
+         (m0 : M) (init_cmd : option cmdid) (scripts : list (list msg)) (sched : list label),
+  let s := run M upd cres (init_state M m0 init_cmd scripts) sched in
+  ~ In ECancel (c_log s) ->
+  forall i, list_eqb msg_eqb (recv_from (WSender i) (c_log s) ++ nth i (c_senders s) []) (nth i scripts []) = true.
+Proof. exact per_sender_prefix. Qed.
+Print Assumptions C01_per_sender_prefix.
+
+(* the cancellation flag of the model is "ECancel is in the log" *)
+Theorem C01_ctx_is_cancel :
+  forall (M : Type) (upd : M -> msg -> M * option cmdid) (cres : cmdid -> msg)
+         (m0 : M) (init_cmd : option cmdid) (scripts : list (list msg)) (sched : list label),
+  let s := run M upd cres (init_state M m0 init_cmd scripts) sched in
+  c_ctx s = true <-> In ECancel (c_log s).
+Proof. exact ctx_is_cancel. Qed.
+Print Assumptions C01_ctx_is_cancel.
+
 (* 6. Update and View run on the event loop only: an EUpdate is appended only by the loop's own
    LbProcess step (from the pc "holding message m"), an EView only by its LbView step; whenever no
-   EUpdate is appended the model is untouched.  This holds of EVERY state, reachable or not.
+   EUpdate is appended the model is untouched.  This holds of EVERY state, reachable or not, and of
+   every label (LbGiveUp, LbHandInit, LbIfwGiveUp, LbLoopFail, LbCancel append no EUpdate / EView).
    `_partial`: in the model the callbacks are program counters of the single event-loop thread, so
    this is a structural fact about who owns Update/View; the theorem cannot exhibit (or exclude) a
    Go data race - that is checked on the real program with the race detector, not here. *)
@@ -106,18 +155,21 @@ Proof. exact single_loop. Qed.
 Print Assumptions C01_single_loop_partial.
 
 (* ------------------------------------------------------------------ *)
-(* The premises are satisfiable and the log is not trivial: a counting model, three scripted
-   senders, Init returning a command, commands whose results come back as messages, a sequence, a
-   batch, a nil message and a quit; a 50-label schedule (two labels of it not enabled, hence
-   skipped) that delivers 11 messages, 8 of which reach Update. *)
+(* The premises are satisfiable and the log is not trivial: a counting model, four scripted
+   senders, Init returning a command (handed over by the forwarder: LbHandInit), commands whose
+   results come back as messages, a sequence, a batch, a nil message and a quit; then the context
+   is cancelled (LbCancel) and the sender that was never served and the last command goroutine give
+   up (LbGiveUp).  A 60-label schedule (some labels of it not enabled, hence skipped: among them a
+   LbGiveUp before the cancellation, a second LbCancel, LbLoopFail after the exit) that delivers 11
+   messages, 8 of which reach Update, and drops 3. *)
 
 Definition ex_upd (m : nat) (x : msg) : nat * option cmdid :=
   (S m, match x with MUser t => if Nat.even t then Some t else None | _ => None end).
 Definition ex_cres (c : cmdid) : msg := MUser (2 * c + 1).
 Definition ex_scripts : list (list msg) :=
-  [[MUser 2; MUser 3; MNil]; [MUser 4; MBatch [Some 7; None]]; [MSeq [Some 1]; MQuit]].
+  [[MUser 2; MUser 3; MNil]; [MUser 4; MBatch [Some 7; None]]; [MSeq [Some 1]; MQuit]; [MUser 6; MUser 8]].
 Definition ex_sched : list label :=
-  [LbHand; LbView;
+  [LbView; LbHandInit;
    LbRecv (WSender 0); LbProcess; LbHand; LbView;
    LbCmdFinish 0; LbRecv (WCmd 0); LbProcess; LbHand; LbView;
    LbRecv (WSender 1); LbProcess; LbHand; LbView;
@@ -129,21 +181,49 @@ Definition ex_sched : list label :=
    LbRecv (WSender 0); LbProcess;
    LbView; LbRecv (WSender 0);
    LbCmdFinish 2; LbRecv (WCmd 2); LbProcess; LbHand; LbView;
-   LbRecv (WSender 2); LbProcess].
+   LbGiveUp (WSender 3);
+   LbRecv (WSender 2); LbProcess;
+   LbCmdFinish 3;
+   LbCancel; LbGiveUp (WSender 3); LbGiveUp (WCmd 3); LbCancel; LbGiveUp (WSender 3);
+   LbIfwGiveUp; LbLoopFail; LbDispExit].
 Definition ex_s : cstate nat := run nat ex_upd ex_cres (init_state nat 0 (Some 5) ex_scripts) ex_sched.
 
 Example C01_example :
-  length ex_sched = 50 /\
-  c_model ex_s = 8 /\ c_loop ex_s = LExited /\ c_senders ex_s = [[]; []; []] /\
-  length (c_log ex_s) = 42 /\
+  length ex_sched = 60 /\
+  c_model ex_s = 8 /\ c_loop ex_s = LExited /\ c_senders ex_s = [[]; []; []; []] /\
+  c_ctx ex_s = true /\ c_ifw ex_s = None /\
+  c_cmds ex_s = [CDone 5; CDone 2; CDone 4; CDone 7] /\
+  length (c_log ex_s) = 47 /\
   n_updates (c_log ex_s) = 8 /\ n_received_updatable (c_log ex_s) = 8 /\
   length (filter (fun e => match e with ERecv _ _ => true | _ => false end) (c_log ex_s)) = 11 /\
+  length (filter (fun e => match e with EDrop _ _ => true | _ => false end) (c_log ex_s)) = 3 /\
+  firstn 3 (c_log ex_s) = [EView; EHand 5; EStart (WCmd 0) 5] /\
+  skipn 43 (c_log ex_s) = [ECancel; EDrop (WSender 3) (MUser 6); EDrop (WCmd 3) (MUser 15); EDrop (WSender 3) (MUser 8)] /\
   updates_ok (c_log ex_s) = true /\
   per_sender_ok ex_scripts (c_senders ex_s) (c_log ex_s) = true /\
+  no_drop_before_cancel (c_log ex_s) = true /\
   c_upds ex_s = [(0, MUser 2, 1); (1, MUser 11, 2); (2, MUser 4, 3); (3, MSeq [Some 1], 4);
                  (4, MUser 3, 5); (5, MUser 3, 6); (6, MUser 5, 7); (7, MUser 9, 8)] /\
   recv_from (WSender 0) (c_log ex_s) = [MUser 2; MUser 3; MNil] /\
   recv_from (WSender 1) (c_log ex_s) = [MUser 4; MBatch [Some 7; None]] /\
-  recv_from (WSender 2) (c_log ex_s) = [MSeq [Some 1]; MQuit].
+  recv_from (WSender 2) (c_log ex_s) = [MSeq [Some 1]; MQuit] /\
+  recv_from (WSender 3) (c_log ex_s) = [] /\
+  sent_from (WSender 3) (c_log ex_s) = [MUser 6; MUser 8].
 Proof. vm_compute. repeat split. Qed.
 Print Assumptions C01_example.
+
+(* a failing loop loses the one message it holds (the bound of C01_lossless_bounds is attained); the Init
+   forwarder and a blocked sender give up after the cancellation *)
+Definition ex2_s : cstate nat :=
+  run nat ex_upd ex_cres (init_state nat 0 (Some 5) [[MUser 1; MUser 2]])
+      [LbCancel; LbIfwGiveUp; LbView; LbRecv (WSender 0); LbLoopFail; LbGiveUp (WSender 0); LbLoopFail; LbHandInit].
+
+Example C01_example_fail :
+  c_log ex2_s = [ECancel; EView; ERecv (WSender 0) (MUser 1); EFail; EExit; EDrop (WSender 0) (MUser 2)] /\
+  c_loop ex2_s = LExited /\ c_ifw ex2_s = None /\ c_cmds ex2_s = [] /\ c_upds ex2_s = [] /\ c_model ex2_s = 0 /\
+  n_updates (c_log ex2_s) = 0 /\ n_received_updatable (c_log ex2_s) = 1 /\
+  updates_ok (c_log ex2_s) = true /\
+  per_sender_ok [[MUser 1; MUser 2]] (c_senders ex2_s) (c_log ex2_s) = true /\
+  no_drop_before_cancel (c_log ex2_s) = true.
+Proof. vm_compute. repeat split. Qed.
+Print Assumptions C01_example_fail.
